@@ -463,7 +463,7 @@ class EndpointResponseHandlerGenerator:
                 if resp_ir.status_code.startswith("2"):
                     # Other 2xx success responses - resolve each response individually
                     if not resp_ir.content:
-                        writer.write_line("return None")
+                        self._write_secondary_return(writer, strategy, "None")
                     else:
                         # Resolve the specific return type for this response
                         resp_schema = self._get_response_schema(resp_ir)
@@ -475,17 +475,17 @@ class EndpointResponseHandlerGenerator:
                             response_type = type_service.resolve_schema_type(resp_schema, context)
                             if self._is_text_body(resp_ir, response_type):
                                 # text/* bodies are the string itself, not a JSON document
-                                writer.write_line("return response.text")
+                                self._write_secondary_return(writer, strategy, "response.text")
                             elif self._should_use_cattrs_structure(response_type):
                                 deserialization_code = self._get_cattrs_deserialization_code(response_type, data_expr)
-                                writer.write_line(f"return {deserialization_code}")
+                                self._write_secondary_return(writer, strategy, deserialization_code)
                                 self._register_cattrs_import(context)
                                 self._register_imports_for_type(response_type, context)
                             else:
                                 context.add_import("typing", "cast")
-                                writer.write_line(f"return cast({response_type}, {data_expr})")
+                                self._write_secondary_return(writer, strategy, f"cast({response_type}, {data_expr})")
                         else:
-                            writer.write_line("return None")
+                            self._write_secondary_return(writer, strategy, "None")
                 elif is_error_code(status_code_val):
                     # Error responses - use human-readable exception names
                     error_class_name = get_exception_class_name(status_code_val)
@@ -528,6 +528,19 @@ class EndpointResponseHandlerGenerator:
         context.add_import("typing", "NoReturn")
         writer.write_line("raise RuntimeError('Unexpected code path')  # pragma: no cover")
         writer.write_line("")  # Add a blank line for readability
+
+    def _write_secondary_return(self, writer: CodeWriter, strategy: ResponseStrategy, value_expr: str) -> None:
+        """Write the return of a 2xx response other than the primary one.
+
+        A method with a streaming primary response is an async generator, where `return <value>` is a SyntaxError:
+        there the value is yielded as the only item of the stream, and a response without content ends the stream.
+        """
+        if not strategy.is_streaming:
+            writer.write_line(f"return {value_expr}")
+            return
+        if value_expr != "None":
+            writer.write_line(f"yield {value_expr}")
+        writer.write_line("return  # Explicit return for async generator")
 
     def _write_raise_by_status_range(self, writer: CodeWriter, context: RenderContext, message: str) -> None:
         """Write the raise for a status code without a case of its own.
